@@ -275,4 +275,24 @@ theorem packC_walks (qs : List QSpec) (an ns ex : List (RRItem × List Bool))
   exact ⟨_, ra, rn, re, 12 + wq.length, 12 + wq.length + wa.length, 12 + wq.length + wa.length + wn.length,
     dq, by simp, da, la, dn, ln, de, le, map_typ_erase re ex ee, by omega, by omega, by omega⟩
 
+
+/-- a body that is read section by section holds at most one question per octet and one record per eleven octets: the
+    counts of a packed message are bounded by its length -/
+theorem walks_counts (body : Bytes) (nq na nn ne : Nat) (types : List Nat) (hw : Walks body nq na nn ne types) :
+    nq ≤ body.length ∧ 11 * (na + nn + ne) ≤ body.length := by
+  obtain ⟨qs, an, ns, ex, o1, o2, o3, uq, lq, ua, la, un, ln, ue, le, _, m1, m2, m3⟩ :=
+    hw (List.replicate 12 0) [] (by simp)
+  have hl : (List.replicate 12 (0 : UInt8) ++ body ++ []).length = 12 + body.length := by simp; omega
+  have bq := unpackQuestions_bound nq (List.replicate 12 0 ++ body ++ []) 12 [] (by rw [hl]; omega)
+  rw [uq] at bq
+  simp only [List.length_nil, Nat.zero_add] at bq
+  obtain ⟨q1, q2, _, q4⟩ := bq
+  have ba := unpackSection_bound na _ o1 [] an o2 (by rw [hl]; omega) ua
+  have bn := unpackSection_bound nn _ o2 [] ns o3 (by rw [hl]; omega) un
+  have be := unpackSection_bound ne _ o3 [] ex (12 + body.length) (by rw [hl]; omega) ue
+  simp only [List.length_nil, Nat.sub_zero] at ba bn be
+  constructor
+  · omega
+  · omega
+
 end Dns.SW
